@@ -84,7 +84,7 @@ pub fn judge(input: &[u8], with_storage: bool, filters: &[(&'static str, Option<
             Ok(Err(_)) => loc.outcome("error"),
         }
     }
-    loc.state(mix(fnv64(input), with_storage as u64), got_message);
+    loc.state(mix(loc.input_hash(input), with_storage as u64), got_message);
     macro_rules! entry {
         ($name:expr, $e:expr) => {{
             loc.transitions += 1;
@@ -121,6 +121,16 @@ pub fn run(ctx: &Ctx) {
             let (input, mode) = variant(gen(i / VARIANTS), i % VARIANTS);
             judge(&input, mode, filters, loc);
         }));
+    }
+    {
+        let lows = prefix_sweep_lows(ctx.tier);
+        let lows = &lows;
+        let tier = ctx.tier;
+        let two = &filters[..1];
+        ctx.run_family(Family::new("c03.prefix_sweep", prefix_sweep_size(ctx.tier), format!("{} (LEN low bytes {:02x?}); parser without and with a filter, skipper, every returned message re-serialised and measured", PREFIX_SWEEP_ABOUT, lows), move |i, loc| {
+            loc.input_hash_override = Some(i);
+            with_prefix_sweep_case(i, tier, lows, |input, mode| judge(input, mode, two, loc));
+        }).distinct());
     }
     // large inputs and their structural neighbourhoods
     {
